@@ -19,6 +19,8 @@ static MD: Metadata<'static> = Metadata::new("c10", Level::INFO, None);
 #[derive(Clone, Debug, Serialize, Deserialize, PartialEq)]
 pub enum Op {
     CInc(u64),
+    /// a second increment-only counter with the same name and another label value
+    CInc2(u64),
     /// absolute: the plan stores the delta to the previous absolute value of that thread
     CAbs(u64),
     GSet,
@@ -56,6 +58,7 @@ pub struct Ev {
 pub fn key_for(op: &Op) -> Option<Key> {
     match op {
         Op::CInc(_) => Some(Key::from_parts("c_inc", vec![Label::new("own", "1")])),
+        Op::CInc2(_) => Some(Key::from_parts("c_inc", vec![Label::new("own", "2")])),
         Op::CAbs(_) => Some(Key::from_name("c_abs")),
         Op::GSet => Some(Key::from_parts("g_one", vec![Label::new("own", "1")])),
         Op::HRec => Some(Key::from_name("h_one")),
@@ -86,7 +89,8 @@ impl Scenario for C10Flush {
             updaters.push(
                 (0..n)
                     .map(|_| match r.below(10) {
-                        0..=3 => Op::CInc(r.range(1, 9)),
+                        0..=2 => Op::CInc(r.range(1, 9)),
+                        3 => Op::CInc2(r.range(1, 9)),
                         4..=5 => {
                             if i == 0 {
                                 Op::CAbs(r.range(0, 7))
@@ -140,7 +144,7 @@ impl Scenario for C10Flush {
                         let key = key_for(&op).unwrap();
                         let inv = dsim::step();
                         let value = match &op {
-                            Op::CInc(v) => {
+                            Op::CInc(v) | Op::CInc2(v) => {
                                 rec.register_counter(&key, &MD).increment(*v);
                                 *v
                             }
@@ -299,7 +303,12 @@ pub fn check_flush_history(cfg: &Cfg, h: &[Ev], exact_tail: bool) -> Option<Viol
             if base == "c_inc" || base == "g_one" {
                 want_tags.push(("own".into(), Some("1".into())));
             }
-            if m.tags != want_tags {
+            let mut alt_tags = want_tags.clone();
+            if base == "c_inc" {
+                alt_tags.pop();
+                alt_tags.push(("own".into(), Some("2".into())));
+            }
+            if m.tags != want_tags && m.tags != alt_tags {
                 return violation("payload-tags", format!("flush {}: {} carries tags {:?}, expected {:?}", fi, m.name, m.tags, want_tags));
             }
             match m.typ {
@@ -321,14 +330,15 @@ pub fn check_flush_history(cfg: &Cfg, h: &[Ev], exact_tail: bool) -> Option<Viol
         }
     }
     let get = |fi: usize, base: &str| -> Vec<&dd::Msg> { parsed[fi].iter().filter(|m| m.name.strip_prefix(pre) == Some(base)).collect() };
-    // ---- increment-only counter
-    let incs: Vec<&Ev> = h.iter().filter(|e| matches!(e.op, Op::CInc(_))).collect();
+    // ---- increment-only counters: two series share the name c_inc and differ in one label
+    for series in ["1", "2"] {
+    let incs: Vec<&Ev> = h.iter().filter(|e| if series == "1" { matches!(e.op, Op::CInc(_)) } else { matches!(e.op, Op::CInc2(_)) }).collect();
     let mut cum: u128 = 0;
     let mut emissions: Vec<Option<u64>> = vec![];
     for (fi, f) in flushes.iter().enumerate() {
-        let ms = get(fi, "c_inc");
+        let ms: Vec<&dd::Msg> = get(fi, "c_inc").into_iter().filter(|m| m.tags.iter().any(|t| t.0 == "own" && t.1.as_deref() == Some(series))).collect();
         if ms.len() > 1 {
-            return violation("counter-sent-twice", format!("flush {} carries {} messages for c_inc", fi, ms.len()));
+            return violation("counter-sent-twice", format!("flush {} carries {} messages for c_inc{{own={}}}", fi, ms.len(), series));
         }
         match ms.first() {
             Some(m) => {
@@ -349,13 +359,13 @@ pub fn check_flush_history(cfg: &Cfg, h: &[Ev], exact_tail: bool) -> Option<Viol
     let total: u128 = incs.iter().map(|e| e.value as u128).sum();
     if exact_tail && cum != total {
         let lost_sig = if cum < total { " sig:delta-behind-idle" } else { "" };
-        return violation("counter-conservation", format!("c_inc: increments add up to {} but the deltas of all flushes (three quiescent flushes included) add up to {}; emissions per flush {:?}{}", total, cum, emissions, lost_sig));
+        return violation("counter-conservation", format!("c_inc{{own={}}}: increments add up to {} but the deltas of all flushes (three quiescent flushes included) add up to {}; emissions per flush {:?}{}", series, total, cum, emissions, lost_sig));
     }
     if exact_tail && emissions.len() >= 3 && !incs.is_empty() {
         let n = emissions.len();
         let (e1, e2, e3) = (emissions[n - 3], emissions[n - 2], emissions[n - 1]);
         if e3.is_some() {
-            return violation("idle-counter-resent", format!("c_inc was still sent by the third quiescent flush: {:?}", emissions));
+            return violation("idle-counter-resent", format!("c_inc{{own={}}} was still sent by the third quiescent flush: {:?}", series, emissions));
         }
         if let Some(x) = e2 {
             if x != 0 {
@@ -369,8 +379,9 @@ pub fn check_flush_history(cfg: &Cfg, h: &[Ev], exact_tail: bool) -> Option<Viol
         let last_nonzero = emissions.iter().rposition(|e| matches!(e, Some(d) if *d > 0));
         let zeros_after = emissions.iter().skip(last_nonzero.map(|i| i + 1).unwrap_or(0)).filter(|e| **e == Some(0)).count();
         if zeros_after == 0 {
-            return violation("idle-zero-missing", format!("c_inc stopped changing but no zero was sent after its last delta: {:?}", emissions));
+            return violation("idle-zero-missing", format!("c_inc{{own={}}} stopped changing but no zero was sent after its last delta: {:?}", series, emissions));
         }
+    }
     }
     // ---- absolute-only counter (single writer, non-decreasing)
     let abss: Vec<&Ev> = h.iter().filter(|e| matches!(e.op, Op::CAbs(_))).collect();
@@ -483,7 +494,8 @@ impl Scenario for C10Agent {
                 let n = r.below(6);
                 (0..n)
                     .map(|_| match r.below(10) {
-                        0..=3 => Op::CInc(r.range(1, 9)),
+                        0..=2 => Op::CInc(r.range(1, 9)),
+                        3 => Op::CInc2(r.range(1, 9)),
                         4 => Op::CAbs(r.range(0, 7)),
                         5..=6 => Op::GSet,
                         _ => Op::HRec,
@@ -547,7 +559,7 @@ impl Scenario for C10Agent {
                     let key = key_for(op).unwrap();
                     let inv = dsim::step();
                     let value = match op {
-                        Op::CInc(v) => {
+                        Op::CInc(v) | Op::CInc2(v) => {
                             rec.register_counter(&key, &MD).increment(*v);
                             *v
                         }
